@@ -546,3 +546,11 @@ M('wire-publisher-drops-second-frame', ['C09'], Z, "json_dumps(env, separators=(
 M('wire-xtra-key-mismatch', ['C09'], Z, "                    msg        = [env.get('xtra'), *msg[2:]]", "                    msg        = [env.get('extra'), *msg[2:]]", ['C09.R6'])
 M('required-outputs-polarity', ['C03'], Z, "do_send    = all(client_id in client_ids for client_id in self.outs_required)", "do_send    = all(client_id not in client_ids for client_id in self.outs_required)", ['C03.R6'])
 M('required-outputs-any', ['C03'], Z, "do_send    = all(client_id in client_ids for client_id in self.outs_required)", "do_send    = any(client_id in client_ids for client_id in self.outs_required) or not self.outs_required", ['C03.R6'])
+
+# ------------------------------------------------------------------------------------------------------ C10.R8 / R9 / R10
+M('init-array-inherits-jpg', ['C10'], FR, "                self.__jpg = False  # False means jpg of valid image not created yet", "                self.__jpg = data.__jpg if isinstance(data, Frame) else False  # False means jpg of valid image not created yet", ['C10.R8'])
+M('init-frame-shape-from-format-frame', ['C10'], FR, "            self.__jpg    = image.__jpg\n", "            self.__jpg    = None\n", ['C10.R8'])
+M('height-width-swapped', ['C09', 'C10'], FR, "return None if (shapef := self.__shapef) is None else shapef[0][0]", "return None if (shapef := self.__shapef) is None else shapef[0][1]", ['C10.R9', 'C09.R7'])
+M('has_jpg-true-when-unencoded', ['C09', 'C10'], FR, "return None if (jpg := self.__jpg) is None else jpg is not False", "return None if (jpg := self.__jpg) is None else jpg is not None", ['C10.R9', 'C09.R7'])
+M('rw-returns-self-when-readonly', ['C10'], FR, "if (image := self.__image) is None or (image is not False and image.flags.writeable):\n            return self", "if (image := self.__image) is None or (image is not False and not image.flags.writeable):\n            return self", ['C10.R10'])
+M('ro-returns-self-when-writable', ['C10'], FR, "if (image := self.__image) is None or image is False or not image.flags.writeable:\n            return self", "if (image := self.__image) is None or image is False or image.flags.writeable:\n            return self", ['C10.R10'])
